@@ -20,6 +20,6 @@ CONSTANTS
   Modes <- MCModes
   MaxSteps = 4
   ModelDeviations = TRUE
-  Follow <- MCFollowD1D2
+  Follow <- MCFollowNone
   EmitAll = FALSE
 INVARIANTS TypeOK NoEffectOnReject OneLogPerWrite DefaultsOnlyAtCreation NoAccountDeleted StrictRequiresVersion StrictChartEnforced StrictHasNoDeviation AuditAcceptsAll AuditRelaxesStrict
